@@ -236,4 +236,189 @@ def arrayReprHead (q : Quantity) : Str := q.qtype ++ [44, 32]
 def arrayReprTail (q : Quantity) : Str := [44, 32] ++ q.unit ++ [41]
 def arrayRepr (cls vals : Str) (q : Quantity) : Str := cls ++ [40] ++ arrayReprHead q ++ vals ++ arrayReprTail q
 
+/-! ### arithmetic on the entry lists (products, quotients, powers) — value-free
+
+What the STRINGS of `a * b`, `a / b`, `number / b`, `q ** n` are is decided by the entry list the operation
+builds from the entry lists of the OPERANDS (`UnitDatabase._DoOperationResultingInNewQuantity`): the values do
+not influence it.  Written after the same Python as engine Alg's `matchOne / mergeAll / dropZero / opNew`
+(Model/Alg.lean), without the numbers and on byte strings, with the two registry lookups of `Reg`:
+
+* `_MatchQuantities`                         → `matchOne`, `matchEntries` (left operand first, one shared `used` dict)
+* "add the categories to the resulting one"  → `mergeOne`, `mergeAll`
+* "remove the ones that have exponent = 0"   → `keepEntry`, `dropZero`
+* `Quantity.CreateDerived` → `ObtainQuantity(dict)` → `obtainFromDict` (the validity of the units of existing
+  operands is engine Conv's)
+* `Quantity.__pow__` (`result = self * result`, `range(exponent - 1)`) → `qpow`;
+  `Scalar.__pow__` (`result = result * self`)                        → `spow`
+The `quantities_cache` is not modelled: a memo keyed by the ORDERED entry list returns what would be recomputed. -/
+
+/-- `dict.get(quantity_type)` on the `quantity type -> used unit` dict -/
+def lookupUsed (k : Str) : List (Str × Str) → Option Str
+  | [] => none
+  | (a, b) :: t => if a = k then some b else lookupUsed k t
+
+/-- one operand's pass of the loop in `_MatchQuantities`: the first unit seen for a quantity type is kept, every
+later entry of that type gets that unit -/
+def matchOne (reg : Reg) : List (Str × Str) → List Entry → Except ErrKind (List (Str × Str) × List Entry)
+  | used, [] => .ok (used, [])
+  | used, e :: es =>
+    match reg.qtypeOf e.cat with
+    | .error err => .error err
+    | .ok qt =>
+      match lookupUsed qt used with
+      | none =>
+        match matchOne reg ((qt, e.unit) :: used) es with
+        | .error err => .error err
+        | .ok (u', es') => .ok (u', e :: es')
+      | some w =>
+        match matchOne reg used es with
+        | .error err => .error err
+        | .ok (u', es') => .ok (u', { e with unit := w } :: es')
+
+/-- `_MatchQuantities` on the entry lists: the left operand first, then the right one -/
+def matchEntries (reg : Reg) (e1 e2 : List Entry) : Except ErrKind (List Entry × List Entry) :=
+  match matchOne reg [] e1 with
+  | .error err => .error err
+  | .ok (used, a) =>
+    match matchOne reg used e2 with
+    | .error err => .error err
+    | .ok (_, b) => .ok (a, b)
+
+inductive NewOp | mul | div
+deriving DecidableEq, Repr
+
+/-- `operation_exp` -/
+def expOp : NewOp → Int → Int → Int
+  | .mul, a, b => a + b
+  | .div, a, b => a - b
+
+/-- one iteration of "add the categories to the resulting one": a new category is appended with
+`operation_exp(0, exp2)`, an existing one (same unit, otherwise `RuntimeError`) gets the combined exponent -/
+def mergeOne (f : Int → Int → Int) : List Entry → Entry → Except ErrKind (List Entry)
+  | [], x => .ok [⟨x.cat, x.unit, f 0 x.exp⟩]
+  | e :: rest, x =>
+    if e.cat = x.cat then
+      if e.unit = x.unit then .ok ({ e with exp := f e.exp x.exp } :: rest) else .error .runtime
+    else
+      match mergeOne f rest x with
+      | .error err => .error err
+      | .ok rest' => .ok (e :: rest')
+
+def mergeAll (f : Int → Int → Int) : List Entry → List Entry → Except ErrKind (List Entry)
+  | e1, [] => .ok e1
+  | e1, x :: xs =>
+    match mergeOne f e1 x with
+    | .error err => .error err
+    | .ok e1' => mergeAll f e1' xs
+
+/-- `only_units_expoents[unit]` -/
+def unitTotal (u : Str) : List Entry → Int
+  | [] => 0
+  | e :: es => (if e.unit = u then e.exp else 0) + unitTotal u es
+
+/-- "remove the ones that have exponent = 0": own exponent 0 or accumulated exponent of the unit 0 -/
+def keepEntry (all : List Entry) (e : Entry) : Bool := !(decide (e.exp = 0) || decide (unitTotal e.unit all = 0))
+
+def dropZero (es : List Entry) : List Entry := es.filter (keepEntry es)
+
+/-- the entry list `_DoOperationResultingInNewQuantity` hands to `Quantity.CreateDerived` -/
+def opEntries (reg : Reg) (op : NewOp) (e1 e2 : List Entry) : Except ErrKind (List Entry) :=
+  match matchEntries reg e1 e2 with
+  | .error err => .error err
+  | .ok (a, b) =>
+    match mergeAll (expOp op) a b with
+    | .error err => .error err
+    | .ok m => .ok (dropZero m)
+
+/-- `q1 * q2`, `q1 / q2` (Quantity, Scalar and Array operands alike: the quantity of the result) -/
+def opQ (reg : Reg) (op : NewOp) (q1 q2 : Quantity) : Except ErrKind Quantity :=
+  match opEntries reg op q1.entries q2.entries with
+  | .error err => .error err
+  | .ok es => obtainFromDict reg es
+
+/-- `Quantity.CreateEmpty()`: the left operand of `number / x` -/
+def emptyQuantity : Quantity := { entries := [], derived := true, category := [], qtype := [], unit := [] }
+
+/-- the loop of `Quantity.__pow__`: `result = self * result`, `k` times -/
+def qpowLoop (reg : Reg) (q : Quantity) : Nat → Quantity → Except ErrKind Quantity
+  | 0, r => .ok r
+  | k + 1, r =>
+    match opQ reg .mul q r with
+    | .error err => .error err
+    | .ok r' => qpowLoop reg q k r'
+
+/-- `Quantity.__pow__(exponent)`: `range(exponent - 1)` is empty for exponents below 2 (q ** 0, q ** -3 are q) -/
+def qpow (reg : Reg) (q : Quantity) (n : Int) : Except ErrKind Quantity := qpowLoop reg q (n - 1).toNat q
+
+/-- the loop of `Scalar.__pow__`: `result = result * self`, `k` times -/
+def spowLoop (reg : Reg) (q : Quantity) : Nat → Quantity → Except ErrKind Quantity
+  | 0, r => .ok r
+  | k + 1, r =>
+    match opQ reg .mul r q with
+    | .error err => .error err
+    | .ok r' => spowLoop reg q k r'
+
+/-- `Scalar.__pow__(exponent)` -/
+def spow (reg : Reg) (q : Quantity) (n : Int) : Except ErrKind Quantity := spowLoop reg q (n - 1).toNat q
+
+/-- the `n`-fold product `q * (q * (... * q))` written as the mathematical recursion (`n` = number of
+multiplications) -/
+def nfoldProduct (reg : Reg) (q : Quantity) : Nat → Except ErrKind Quantity
+  | 0 => .ok q
+  | k + 1 =>
+    match nfoldProduct reg q k with
+    | .error err => .error err
+    | .ok r => opQ reg .mul q r
+
+/-- every exponent multiplied by `n` -/
+def scaleEntries (n : Int) (es : List Entry) : List Entry := es.map (fun e => { e with exp := e.exp * n })
+
+/-- expressions over simple quantities, as the harness builds them on Scalars / Quantities / value-less Arrays -/
+inductive Expr
+  | leaf (cat unit : Str)
+  | mul (a b : Expr)
+  | div (a b : Expr)
+  | rdiv (a : Expr)
+  | spow (a : Expr) (n : Int)
+  | qpow (a : Expr) (n : Int)
+
+def Expr.eval (reg : Reg) : Expr → Except ErrKind Quantity
+  | .leaf c u => newSimple reg c u
+  | .mul a b =>
+    match a.eval reg with
+    | .error err => .error err
+    | .ok qa => match b.eval reg with
+      | .error err => .error err
+      | .ok qb => opQ reg .mul qa qb
+  | .div a b =>
+    match a.eval reg with
+    | .error err => .error err
+    | .ok qa => match b.eval reg with
+      | .error err => .error err
+      | .ok qb => opQ reg .div qa qb
+  | .rdiv a =>
+    match a.eval reg with
+    | .error err => .error err
+    | .ok qa => opQ reg .div emptyQuantity qa
+  | .spow a n =>
+    match a.eval reg with
+    | .error err => .error err
+    | .ok qa => Barril.Str.spow reg qa n
+  | .qpow a n =>
+    match a.eval reg with
+    | .error err => .error err
+    | .ok qa => Barril.Str.qpow reg qa n
+
+/-- `Quantity.__repr__` without caption, for texts whose Python `repr` is the text in single quotes:
+`"Quantity('<category>', '<unit>')"` -/
+def quantityRepr (q : Quantity) : Str :=
+  [81, 117, 97, 110, 116, 105, 116, 121, 40, 39] ++ q.category ++ [39, 44, 32, 39] ++ q.unit ++ [39, 41]
+
+/-- `Quantity.__repr__` of a quantity with an unknown-unit caption:
+`"Quantity('<category>', '<unit>', '<caption>')"` (an empty caption is falsy: the two-argument form) -/
+def quantityReprCaption (q : Quantity) (cap : Str) : Str :=
+  if cap = [] then quantityRepr q
+  else [81, 117, 97, 110, 116, 105, 116, 121, 40, 39] ++ q.category ++ [39, 44, 32, 39] ++ q.unit
+    ++ [39, 44, 32, 39] ++ cap ++ [39, 41]
+
 end Barril.Str
